@@ -97,3 +97,20 @@ void lintgood_word_split(uint64_t *d, const uint64_t *a, const uint64_t *b)
 	lo &= 0x7FFFFFFFFFFFFFFFull;
 	d[0] = lo + 19 * hi; d[1] = th;
 }
+
+/* or-scan-covers-array */
+void fillw(uint32_t *t);
+uint32_t lintbad_or_scan(void)
+{
+	uint32_t t[20], bad = 0; int i;
+	fillw(t);
+	for (i = 0; i < 19; i ++) bad |= t[i];
+	return bad;
+}
+uint32_t lintgood_or_scan(void)
+{
+	uint32_t t[20], bad = 0; int i;
+	fillw(t);
+	for (i = 0; i < 20; i ++) bad |= t[i];
+	return bad;
+}
